@@ -47,5 +47,5 @@ static void prop(Tape &t, Ctx &c) {
     if (rc >= 0 || deep) c.nontrivial(fmt("dh:%d:%llx", rc >= 0, (unsigned long long) shape));
     if (rc >= 0) c.sample(fmt("psPkcs3ParseDhParamBin len=%zu rc=%d size=%u x_bitlen=%u", in.n, rc, size, xbits));
 }
-VF_TARGET("C09.dh_params", prop, 1024, 20)
+VF_TARGET("C09.dh_params", prop, 1024, 12)
 namespace vf { void vf_global_init(int, char **) { psCryptoOpen(PSCRYPTO_CONFIG); } }
